@@ -173,8 +173,8 @@ def strata(tier, seed):
                                        gseeds=list(range(10)) if tier != 'quick' else [0, 1, 2], seed=seed))
     # a Generator object as seed; modes large enough that n_k * m exceeds 255; trains so long that a product of mode sizes
     # exceeds 2^63 (no dense tensor exists: the comparison runs through TT inner products)
-    for sh, rho, m in (([4, 5, 6], 2, 3), ([5, 5], 2, 2), ([3, 4, 3, 4], 2, 2)):
-        cs.append(dict(shape=sh, rho=rho, m=m, pat='gen', caps=[rho, 1e12], gseeds=['gen:5', 'gen:6'], seed=seed))
+    for sh, rho, m in (([4, 5, 6], 2, 3), ([5, 5], 2, 2), ([3, 4, 3, 4], 2, 2), ([4, 5, 6, 5], 3, 3), ([3, 3, 3], 2, 2)):     # Generator objects: blocks drawn independently
+        cs.append(dict(shape=sh, rho=rho, m=m, pat='gen', caps=[rho, 1e12], gseeds=['gen:%d' % g for g in range(12 if tier == 'quick' else 40)], seed=seed))
     # non-uniform rank profiles (a rank-1 bond next to higher ones, growing and shrinking profiles)
     for sh, prof in (([3, 4, 3], [1, 1, 2, 1]), ([3, 4, 3], [1, 2, 1, 1]), ([4, 4, 4, 4], [1, 2, 3, 2, 1]), ([4, 4, 4, 4], [1, 3, 1, 3, 1]), ([3, 3, 3, 3], [1, 1, 2, 3, 1]),
                      ([4, 5, 4], [1, 3, 2, 1]), ([5, 4, 5], [1, 2, 3, 1])):
